@@ -266,6 +266,8 @@ type World struct {
 	budget int64 // < 0: unlimited
 	used   int64
 	dead   bool
+	lose   bool // the last request of the budget is executed but its reply is lost (the connection dies instead)
+	losing bool
 	OnDead func()
 	total  int64
 	// Counts: only requests for which it returns true consume the budget (nil: all). Uncounted requests are still refused once the target is dead.
@@ -277,6 +279,7 @@ func NewWorld(t *Target) *World {
 	for _, n := range t.Nodes() {
 		n.Lock()
 		n.RefuseOf = func(conn int, cmd string, args [][]byte) bool { return w.refuse(cmd, args) }
+		n.DropReplyOf = func(conn int, cmd string, args [][]byte) bool { return w.dropReply(cmd, args) }
 		n.Unlock()
 	}
 	return w
@@ -300,16 +303,46 @@ func (w *World) refuse(cmd string, args [][]byte) bool {
 	}
 	w.used++
 	w.total++
+	if w.lose && w.budget >= 0 && w.used >= w.budget {
+		w.losing = true
+	}
 	return false
 }
 
+// dropReply is asked after a request was executed: the last request of a budget armed with ArmLose loses its reply, and the
+// target is dead from then on (a link that fails between the target executing a request and the tool reading the answer).
+func (w *World) dropReply(cmd string, args [][]byte) bool {
+	w.mu.Lock()
+	defer w.mu.Unlock()
+	if !w.losing || (w.Counts != nil && !w.Counts(cmd, args)) {
+		return false
+	}
+	w.losing = false
+	w.dead = true
+	if w.OnDead != nil {
+		go w.OnDead()
+	}
+	return true
+}
+
 // Arm: the next k requests are processed, everything after is refused.
-func (w *World) Arm(k int) { w.mu.Lock(); w.budget, w.used, w.dead = int64(k), 0, false; w.mu.Unlock() }
+func (w *World) Arm(k int) {
+	w.mu.Lock()
+	w.budget, w.used, w.dead, w.lose, w.losing = int64(k), 0, false, false, false
+	w.mu.Unlock()
+}
+
+// ArmLose: like Arm, but the k-th request is executed and its reply is lost.
+func (w *World) ArmLose(k int) {
+	w.mu.Lock()
+	w.budget, w.used, w.dead, w.lose, w.losing = int64(k), 0, false, k > 0, false
+	w.mu.Unlock()
+}
 
 // Heal: the target is reachable again (its state is what the processed requests left).
 func (w *World) Heal() {
 	w.mu.Lock()
-	w.budget, w.used, w.dead = -1, 0, false
+	w.budget, w.used, w.dead, w.lose, w.losing = -1, 0, false, false, false
 	w.mu.Unlock()
 	for _, n := range w.T.Nodes() {
 		n.DropConns()
